@@ -16,10 +16,11 @@ func propC12() *Property {
 		Explanation: "Structural clauses of link numbering. Decided: (R1) in every markup renderer each label printed by style.Link / style.LinkBlock is the length of the link list taken immediately after its own append — no call that can append to the same list lies between the append and the evaluation of len — and every append has exactly one label; (R2) label and lookup are inverse: attachments are labelled len(bodyLinks)+i+1 for slot i and SelectLink(k) reads attachments[k-1-len(bodyLinks)] and bodyLinks[k-1] (linear forms composed to the identity); body/bodyLinks and bio/bioLinks come from the same GetMarkup call; Activity delegates rendering and selection to the same target; (R3) every index in the SelectLink implementations is provably within 0..len-1 (numbers outside 1..N open nothing); (R4) Markdown returns the link list of its HTML rendering unchanged. NOT decided: that superscripts survive wrapping at every width and that link order is width-independent (string values).",
 		Assumptions: []string{"len/append semantics of Go slices"},
 		Rules: []Rule{
-			{ID: "C12.R1", Title: "a link's label is taken at its own append", Floor: 5, Run: c12R1},
+			{ID: "C12.R1", Title: "a link's label is taken at its own append", Floor: 6, Run: c12R1},
 			{ID: "C12.R2", Title: "label and lookup are inverse; lists paired with their text", Floor: 6, Run: c12R2},
-			{ID: "C12.R3", Title: "link numbers outside 1..N open nothing (index bounds)", Floor: 3, Run: c12R3},
+			{ID: "C12.R3", Title: "link numbers outside 1..N open nothing (index bounds)", Floor: 4, Run: c12R3},
 			{ID: "C12.R4", Title: "Markdown forwards the HTML link list", Floor: 1, Run: c12R4},
+			{ID: "C12.R5", Title: "which targets are numbered does not depend on the width", Floor: 3, Run: c12R5},
 		},
 	}
 }
@@ -407,4 +408,47 @@ func c12R4(c *Ctx) {
 		}
 	}
 	c.check(ok, name+"/forwards-links", P.Pos(md.Pos()), name, "returns hypertext.NewMarkup's (markup, links, error) unchanged", "markdown.NewMarkup does not forward the link list of the HTML it renders")
+}
+
+// c12R5: the link list is computed once (at construction) and reused for every
+// width, so whether a target is appended must not depend on the width: no
+// branch condition that dominates an append may be derived from a width.
+func c12R5(c *Ctx) {
+	P := c.P
+	f := flowAll(P)
+	// width origins: integer parameters named as the width of the render functions and the context's width field
+	isWidthNode := func(n int) bool {
+		k := f.keys[n]
+		switch k.kind {
+		case nValue:
+			if p, ok := k.v.(*ssa.Parameter); ok && isInteger(p.Type()) {
+				pk := P.PkgOf(p.Parent())
+				for _, m := range markupPkgs {
+					if pk == m {
+						return true
+					}
+				}
+			}
+		case nField:
+			if k.f.Name() == "width" && isInteger(k.f.Type()) {
+				return true
+			}
+		}
+		return false
+	}
+	for _, a := range findAppends(P, markupPkgs) {
+		fn := a.fn
+		at := a.call.Block()
+		problem := ""
+		for _, fact := range factsOf(fn).At(at) {
+			_, visited := f.Backward(f.val(fact.Cond), func(n int) bool { return isWidthNode(n) })
+			for n := range visited {
+				if isWidthNode(n) {
+					problem = "the append is guarded by a condition that depends on the width (" + f.describe(n, flowEdge{}) + ")"
+				}
+			}
+		}
+		c.check(problem == "", FuncName(fn)+"/append-width-independent", P.InstrPos(a.call), FuncName(fn),
+			"whether this target is numbered does not depend on the width", "the set of numbered targets changes with the width, but the list used by SelectLink is the one computed at construction: "+problem+" — at such widths every later number opens the wrong target")
+	}
 }
